@@ -29,7 +29,10 @@ MUTANTS = [
 
 COORDS = [[[0, 0], [10, 0], [10, 5]], [[-3.0, 0.5], [1.5, 2.49], [1e4, 7.51]], [[2.5, 3.5], [4.4999, -0.5001]]]
 HEIGHTS = [None, [0.04, 0.05], [10.26, 3.349]]
-TEXTS = [None, '', ' a ', '<&>"\'', 'é', 'אב', '\U0001F600', 'a b', 'é  x']
+TEXTS = [None, '', ' a ', '<&>"\'', 'é', 'אב', '\U0001F600', 'a b', 'é  x',
+         # XML-legal characters at the edges of the legal ranges: DEL, the C1 controls (NEL), the last BMP character before the
+         # surrogates, private use, the replacement character (a "strip control characters" sanitiser must not eat them)
+         'x\x7f\x80\x85\x9f\ud7ff\ue000\ufffdy', '\x85']
 CONFS = [None, 0, 0.12345, 1]
 INDEXES = [None, 0, 7]
 IDS = ['r1', 'r.2', 'a b']
@@ -148,7 +151,7 @@ def specs(thorough):
             regs = []
             for k, (i, m) in enumerate(zip(ids, nl)):
                 lines = [(COORDS[(k + j) % 3], HEIGHTS[(k + j) % 3], TEXTS[(2 * k + j + 2) % len(TEXTS)], CONFS[(k + j) % 4], INDEXES[(k + j) % 3]) for j in range(m)]
-                regs.append({'id': i, 'type': [None, 'paragraph', 'heading'][k % 3], 'text': [None, 'reg <t>', ''][k % 3], 'lines': lines})
+                regs.append({'id': i, 'type': [None, 'paragraph', 'heading'][k % 3], 'text': [None, 'reg <t>\x85', ''][k % 3], 'lines': lines})
             orders = [None, {}]
             for r in range(1, n + 1):
                 for sub in itertools.permutations(ids, r):
